@@ -561,6 +561,10 @@ def check_no_panicking_time_arith(facts, tr, rep, rule, bodies):
             sty = b.types[c.fn["self_ty"]]["s"] if isinstance(c.fn["self_ty"], int) else str(c.fn["self_ty"])
             if not (sty.endswith("Instant") or sty.endswith("Duration") or sty.endswith("SystemTime")):
                 continue
+            # `Instant - Instant` saturates (it is duration_since); only `- Duration` can panic
+            targs = c.fn.get("args") or []
+            if c.trait.endswith("Sub") and len(targs) > 1 and isinstance(targs[1], int) and b.types[targs[1]]["s"].endswith("Instant"):
+                continue
             n += 1
             ops = [tr.expand(tr.operand(b, a, c.loc), upvars=True) for a in c.args]
             # the Instant side is a clock reading; the Duration side decides
